@@ -23,7 +23,12 @@
 (*   FinishAck         idRing.Discard(pendingDiscard)                        *)
 (*   Aggregate         sendAck: ackByTarget[t] := a; min over PRESENT        *)
 (*                     entries; monotone guard; clamp; Send to the source    *)
-(*   BreakTgt/ReopenTgt/ReplayWm, BreakSrc/ReopenSrc   stream faults (C04)   *)
+(*   BreakTgt/SenderStop/ReopenTgt/ReplayWm, BreakSrc/SrcStop/ReopenSrc     *)
+(*                     stream faults (C04).  A break is noticed by the proxy *)
+(*                     only when a goroutine next touches the stream, so the *)
+(*                     shutdown of an incarnation is a separate internal     *)
+(*                     step ("closing" -> "down") and internal steps keep    *)
+(*                     running in between.                                   *)
 (*                                                                          *)
 (* SeedFix = TRUE models the repaired tree ("fix: seed the per-target ack    *)
 (* level before handing a batch to a target that has not acknowledged yet"): *)
@@ -44,6 +49,7 @@ CONSTANTS Src, Tgt,     \* source / target shards
           SeedFix
 
 Absent == 0
+\* stream life cycle: "up" -> (break) "closing" -> (proxy notices, incarnation torn down) "down" -> (reopen) "up"
 Min(S) == CHOOSE x \in S : \A y \in S : x <= y
 Max(S) == CHOOSE x \in S : \A y \in S : x >= y
 SeqToSet(q) == {q[i] : i \in 1..Len(q)}
@@ -65,25 +71,26 @@ VARIABLES
   delivered,   \* set of [s, id, t] : every task the target cluster accepted
   received,    \* [Src -> set of ids the proxy has read]
   lastAck,     \* [Src -> last acknowledgement emitted on the current source-stream incarnation]
-  faults,
+ faults,
+  lost,        \* set of <<s, id>> that died with a stream incarnation before being confirmed (known finding C04)
   viol         \* sticky set of violated clauses: "early","malformed","dropped","dup","disorder","nonmono","overhigh"
 
 srcVars == <<srcNext, wmCount, srcAck, srcUp>>
 rcvVars == <<rpc, pending, lastHigh, lastWm, ackByTarget, lastSentMin, ackChan>>
 sndVars == <<up, chan, nextPid, ring, prevAck, spc, fwd, fallback, discardN, tackWire, inflight, replayTo>>
 tgtVars == <<trkHigh, trkQ>>
-histVars == <<pidMap, conf, delivered, received, lastAck, faults, viol>>
+histVars == <<pidMap, conf, delivered, received, lastAck, faults, lost, viol>>
 vars == <<route, srcVars, rcvVars, sndVars, tgtVars, histVars>>
 
-Init ==
-  /\ route \in [Src -> [1..MaxId -> Tgt]]
+InitWith(rt) ==
+  /\ route = rt
   /\ srcNext = [s \in Src |-> 1] /\ wmCount = [s \in Src |-> 0] /\ srcAck = [s \in Src |-> 0]
-  /\ srcUp = [s \in Src |-> TRUE]
+  /\ srcUp = [s \in Src |-> "up"]
   /\ rpc = [s \in Src |-> "idle"] /\ pending = [s \in Src |-> [t \in Tgt |-> <<>>]]
   /\ lastHigh = [s \in Src |-> 0] /\ lastWm = [s \in Src |-> 0]
   /\ ackByTarget = [s \in Src |-> [t \in Tgt |-> Absent]]
   /\ lastSentMin = [s \in Src |-> 0] /\ ackChan = [s \in Src |-> <<>>]
-  /\ up = [t \in Tgt |-> t \notin LateTgt]
+  /\ up = [t \in Tgt |-> IF t \in LateTgt THEN "down" ELSE "up"]
   /\ chan = [t \in Tgt |-> <<>>] /\ nextPid = [t \in Tgt |-> 0] /\ ring = [t \in Tgt |-> <<>>]
   /\ prevAck = [t \in Tgt |-> [s \in Src |-> Absent]]
   /\ spc = [t \in Tgt |-> "idle"] /\ fwd = [t \in Tgt |-> [s \in Src |-> Absent]]
@@ -92,12 +99,13 @@ Init ==
   /\ trkHigh = [t \in Tgt |-> 0] /\ trkQ = [t \in Tgt |-> <<>>]
   /\ pidMap = [t \in Tgt |-> <<>>] /\ conf = {} /\ delivered = {}
   /\ received = [s \in Src |-> {}] /\ lastAck = [s \in Src |-> 0] /\ faults = 0
-  /\ viol = {}
+  /\ lost = {} /\ viol = {}
+Init == \E rt \in [Src -> [1..MaxId -> Tgt]] : InitWith(rt)
 
 (* ---------------- receiver R[s]: read a batch from the source ------------ *)
 \* a task batch of k tasks, ids srcNext..srcNext+k-1, exclusive high srcNext+k
 RecvTasks(s, k) ==
-  /\ srcUp[s] /\ rpc[s] = "idle" /\ srcNext[s] + k - 1 <= MaxId
+  /\ srcUp[s] = "up" /\ rpc[s] = "idle" /\ srcNext[s] + k - 1 <= MaxId
   /\ LET ids  == [i \in 1..k |-> srcNext[s] + i - 1]
          high == srcNext[s] + k
          grp  == [t \in Tgt |-> SelectSeq(ids, LAMBDA id : route[s][id] = t)]
@@ -111,13 +119,15 @@ RecvTasks(s, k) ==
                      [t \in Tgt |-> IF @[t] = Absent /\ grp[t] # <<>> THEN grp[t][1] ELSE @[t]]]
              ELSE ackByTarget
   /\ UNCHANGED <<route, wmCount, srcAck, srcUp, lastWm, lastSentMin, ackChan, sndVars, tgtVars,
-                 pidMap, conf, delivered, lastAck, faults, viol>>
+                 pidMap, conf, delivered, lastAck, faults, lost, viol>>
 
 \* a watermark-only batch: recorded as lastWatermark and broadcast (non-blocking) to every registered channel
 WmMsg(s, high) == [src |-> s, ids |-> <<>>, high |-> high]
-Offer(t, m) == IF up[t] /\ Len(chan[t]) < ChanCap THEN Append(chan[t], m) ELSE chan[t]
+Reg(t) == up[t] # "down"        \* S[t]'s channel is registered (also while its stream is already broken)
+Live(t) == up[t] = "up"         \* the target cluster is connected
+Offer(t, m) == IF Reg(t) /\ Len(chan[t]) < ChanCap THEN Append(chan[t], m) ELSE chan[t]
 RecvWm(s) ==
-  /\ srcUp[s] /\ rpc[s] = "idle" /\ wmCount[s] < MaxWm /\ srcNext[s] > 1
+  /\ srcUp[s] = "up" /\ rpc[s] = "idle" /\ wmCount[s] < MaxWm /\ srcNext[s] > 1
   /\ LET high == srcNext[s] IN
      /\ wmCount' = [wmCount EXCEPT ![s] = @ + 1]
      /\ lastHigh' = [lastHigh EXCEPT ![s] = high] /\ lastWm' = [lastWm EXCEPT ![s] = high]
@@ -128,7 +138,7 @@ RecvWm(s) ==
 
 \* hand-off of target t's part of the current batch (blocking send; retried until the channel exists)
 Deliver(s, t) ==
-  /\ rpc[s] = "deliver" /\ pending[s][t] # <<>> /\ up[t] /\ Len(chan[t]) < ChanCap
+  /\ rpc[s] = "deliver" /\ pending[s][t] # <<>> /\ Reg(t) /\ Len(chan[t]) < ChanCap
   /\ chan' = [chan EXCEPT ![t] = Append(@, [src |-> s, ids |-> pending[s][t], high |-> 0])]
   /\ pending' = [pending EXCEPT ![s][t] = <<>>]
   /\ rpc' = [rpc EXCEPT ![s] = IF \A u \in Tgt : pending'[s][u] = <<>> THEN "idle" ELSE "deliver"]
@@ -138,7 +148,7 @@ Deliver(s, t) ==
 
 (* ---------------- sender S[t] -------------------------------------------- *)
 SenderDequeue(t) ==
-  /\ up[t] /\ chan[t] # <<>> /\ inflight[t] = NoFlight
+  /\ Reg(t) /\ chan[t] # <<>> /\ inflight[t] = NoFlight
   /\ LET m == Head(chan[t])
          n == Len(m.ids)
          ents == IF n > 0
@@ -152,11 +162,11 @@ SenderDequeue(t) ==
         /\ pidMap' = [pidMap EXCEPT ![t] = @ \o ents]
         /\ inflight' = [inflight EXCEPT ![t] = [n |-> n, high |-> high]]
   /\ UNCHANGED <<route, srcVars, rcvVars, up, prevAck, spc, fwd, fallback, discardN, tackWire, replayTo,
-                 tgtVars, conf, delivered, received, lastAck, faults, viol>>
+                 tgtVars, conf, delivered, received, lastAck, faults, lost, viol>>
 
 \* Send returned: the target's tracker applies TrackTasks(high, tasks)
 SenderSend(t) ==
-  /\ up[t] /\ inflight[t] # NoFlight
+  /\ Live(t) /\ inflight[t] # NoFlight
   /\ LET n == inflight[t].n
          high == inflight[t].high
          first == IF n > 0 THEN high - n ELSE high
@@ -176,25 +186,25 @@ SenderSend(t) ==
                    THEN {"disorder"} ELSE {})
   /\ inflight' = [inflight EXCEPT ![t] = NoFlight]
   /\ UNCHANGED <<route, srcVars, rcvVars, up, chan, nextPid, ring, prevAck, spc, fwd, fallback, discardN,
-                 tackWire, replayTo, pidMap, conf, received, lastAck, faults>>
+                 tackWire, replayTo, pidMap, conf, received, lastAck, faults, lost>>
 
 TgtDone(t, i) ==
-  /\ up[t] /\ i \in 1..Len(trkQ[t])
+  /\ Live(t) /\ i \in 1..Len(trkQ[t])
   /\ trkQ' = [trkQ EXCEPT ![t] = [j \in 1..(Len(@) - 1) |-> IF j < i THEN @[j] ELSE @[j + 1]]]
   /\ UNCHANGED <<route, srcVars, rcvVars, sndVars, trkHigh, histVars>>
 
 LowWm(t) == IF trkQ[t] # <<>> THEN trkQ[t][1] ELSE trkHigh[t]
 TgtAck(t) ==
-  /\ up[t] /\ trkHigh[t] # 0 /\ Len(tackWire[t]) < AckCap
+  /\ Live(t) /\ trkHigh[t] # 0 /\ Len(tackWire[t]) < AckCap
   /\ LET w == LowWm(t) IN
      /\ tackWire' = [tackWire EXCEPT ![t] = Append(@, w)]
      /\ conf' = conf \cup {<<pidMap[t][i].src, pidMap[t][i].orig>> :
                              i \in {j \in 1..Len(pidMap[t]) : pidMap[t][j].task /\ pidMap[t][j].pid < w}}
   /\ UNCHANGED <<route, srcVars, rcvVars, up, chan, nextPid, ring, prevAck, spc, fwd, fallback, discardN,
-                 inflight, replayTo, tgtVars, pidMap, delivered, received, lastAck, faults, viol>>
+                 inflight, replayTo, tgtVars, pidMap, delivered, received, lastAck, faults, lost, viol>>
 
 SenderRecvAck(t) ==
-  /\ up[t] /\ spc[t] = "idle" /\ tackWire[t] # <<>>
+  /\ Reg(t) /\ spc[t] = "idle" /\ tackWire[t] # <<>>
   /\ LET w == Head(tackWire[t])
          cov == SelectSeq(ring[t], LAMBDA e : e.pid <= w)
          agg == [s \in Src |-> LET vs == {cov[i].orig : i \in {j \in 1..Len(cov) : cov[j].src = s}} IN
@@ -209,7 +219,7 @@ SenderRecvAck(t) ==
 
 \* blocking hand-off of one per-source ack; retried while the source's receiver is not registered
 ForwardAck(t, s) ==
-  /\ up[t] /\ spc[t] = "fwd" /\ fwd[t][s] # Absent /\ srcUp[s] /\ Len(ackChan[s]) < AckCap
+  /\ Reg(t) /\ spc[t] = "fwd" /\ fwd[t][s] # Absent /\ srcUp[s] # "down" /\ Len(ackChan[s]) < AckCap
   /\ ackChan' = [ackChan EXCEPT ![s] = Append(@, [tgt |-> t, a |-> fwd[t][s]])]
   /\ prevAck' = IF fallback[t] THEN prevAck ELSE [prevAck EXCEPT ![t][s] = fwd[t][s]]
   /\ fwd' = [fwd EXCEPT ![t][s] = Absent]
@@ -217,7 +227,7 @@ ForwardAck(t, s) ==
                  up, chan, nextPid, ring, spc, fallback, discardN, tackWire, inflight, replayTo, tgtVars, histVars>>
 
 FinishAck(t) ==
-  /\ up[t] /\ spc[t] = "fwd" /\ \A s \in Src : fwd[t][s] = Absent
+  /\ Reg(t) /\ spc[t] = "fwd" /\ \A s \in Src : fwd[t][s] = Absent
   /\ ring' = [ring EXCEPT ![t] = SubSeq(@, discardN[t] + 1, Len(@))]
   /\ spc' = [spc EXCEPT ![t] = "idle"] /\ discardN' = [discardN EXCEPT ![t] = 0]
   /\ UNCHANGED <<route, srcVars, rcvVars, up, chan, nextPid, prevAck, fwd, fallback, tackWire, inflight, replayTo,
@@ -226,7 +236,7 @@ FinishAck(t) ==
 (* ---------------- receiver R[s]: aggregate and acknowledge --------------- *)
 Confirmed(s, id) == <<s, id>> \in conf
 Aggregate(s) ==
-  /\ srcUp[s] /\ ackChan[s] # <<>>
+  /\ srcUp[s] = "up" /\ ackChan[s] # <<>>
   /\ LET m == Head(ackChan[s])
          abt == [ackByTarget[s] EXCEPT ![m.tgt] = m.a]
          present == {abt[t] : t \in {u \in Tgt : abt[u] # Absent}}
@@ -239,20 +249,29 @@ Aggregate(s) ==
                   /\ lastSentMin' = [lastSentMin EXCEPT ![s] = out]
                   /\ srcAck' = [srcAck EXCEPT ![s] = out]      \* the source persists it: worst case for loss
                   /\ viol' = viol
-                       \cup (IF \E id \in received[s] : id < out /\ ~Confirmed(s, id) THEN {"early"} ELSE {})
+                       \cup (IF \E id \in received[s] : id < out /\ ~Confirmed(s, id) /\ <<s, id>> \notin lost THEN {"early"} ELSE {})
+                       \cup (IF \E id \in received[s] : id < out /\ ~Confirmed(s, id) /\ <<s, id>> \in lost THEN {"earlylost"} ELSE {})
                        \cup (IF out < lastAck[s] THEN {"nonmono"} ELSE {})
                        \cup (IF out > lastHigh[s] THEN {"overhigh"} ELSE {})
              ELSE UNCHANGED <<lastAck, lastSentMin, srcAck, viol>>
   /\ UNCHANGED <<route, srcNext, wmCount, srcUp, rpc, pending, lastHigh, lastWm, sndVars, tgtVars,
-                 pidMap, conf, delivered, received, faults>>
+                 pidMap, conf, delivered, received, faults, lost>>
 
 (* ---------------- faults (C04) ------------------------------------------- *)
-\* the stream of target shard t breaks: S[t] shuts down; queue, in-flight message, ring, prevAck and the
-\* target-side tracker of that incarnation are gone
+\* the stream of target shard t breaks (boundary): the target cluster is gone at once ...
 BreakTgt(t) ==
-  /\ up[t] /\ faults < MaxFaults
+  /\ Live(t) /\ faults < MaxFaults
   /\ faults' = faults + 1
-  /\ up' = [up EXCEPT ![t] = FALSE]
+  /\ up' = [up EXCEPT ![t] = "closing"]
+  /\ tackWire' = tackWire      \* acks already on the wire may still be read by recvAck
+  /\ UNCHANGED <<route, srcVars, rcvVars, chan, nextPid, ring, prevAck, spc, fwd, fallback, discardN, inflight,
+                 replayTo, tgtVars, pidMap, conf, delivered, received, lastAck, lost, viol>>
+\* ... S[t] shuts down when one of its goroutines touches the stream: Send fails (a message is in flight) or
+\* Recv fails (recvAck is idle).  Queue, in-flight message, ring, prevAck and the target-side tracker of that
+\* incarnation are gone; close(sendMsgChan), UnregisterShard, RemoveRemoteSendChan.
+SenderStop(t) ==
+  /\ up[t] = "closing" /\ (inflight[t] # NoFlight \/ spc[t] = "idle")
+  /\ up' = [up EXCEPT ![t] = "down"]
   /\ chan' = [chan EXCEPT ![t] = <<>>] /\ nextPid' = [nextPid EXCEPT ![t] = 0]
   /\ ring' = [ring EXCEPT ![t] = <<>>] /\ prevAck' = [prevAck EXCEPT ![t] = [s \in Src |-> Absent]]
   /\ spc' = [spc EXCEPT ![t] = "idle"] /\ fwd' = [fwd EXCEPT ![t] = [s \in Src |-> Absent]]
@@ -261,46 +280,59 @@ BreakTgt(t) ==
   /\ replayTo' = [replayTo EXCEPT ![t] = {}]
   /\ trkHigh' = [trkHigh EXCEPT ![t] = 0] /\ trkQ' = [trkQ EXCEPT ![t] = <<>>]
   /\ pidMap' = [pidMap EXCEPT ![t] = <<>>]
-  /\ UNCHANGED <<route, srcVars, rcvVars, conf, delivered, received, lastAck, viol>>
+  \* known finding C04-a: everything forwarded on / queued for this incarnation and not yet confirmed dies with it
+  /\ lost' = lost \cup {<<pidMap[t][i].src, pidMap[t][i].orig>> :
+                           i \in {j \in 1..Len(pidMap[t]) : pidMap[t][j].task /\ <<pidMap[t][j].src, pidMap[t][j].orig>> \notin conf}}
+                  \cup UNION {{<<chan[t][i].src, id>> : id \in SeqToSet(chan[t][i].ids)} : i \in 1..Len(chan[t])}
+  /\ UNCHANGED <<route, srcVars, rcvVars, conf, delivered, received, lastAck, faults, viol>>
 
 \* SetRemoteSendChan: the new channel is visible (blocked hand-offs may now succeed) ...
 ReopenTgt(t) ==
-  /\ ~up[t]
-  /\ up' = [up EXCEPT ![t] = TRUE]
-  /\ replayTo' = [replayTo EXCEPT ![t] = {s \in Src : srcUp[s]}]
+  /\ up[t] = "down"
+  /\ up' = [up EXCEPT ![t] = "up"]
+  /\ replayTo' = [replayTo EXCEPT ![t] = {s \in Src : srcUp[s] # "down"}]
   /\ UNCHANGED <<route, srcVars, rcvVars, chan, nextPid, ring, prevAck, spc, fwd, fallback, discardN, tackWire,
                  inflight, tgtVars, histVars>>
 \* ... and only then RegisterShard -> notifyReceiversOfNewShard -> sendPendingWatermarkToShard (non-blocking)
 ReplayWm(t, s) ==
-  /\ up[t] /\ s \in replayTo[t]
+  /\ Reg(t) /\ s \in replayTo[t]
   /\ replayTo' = [replayTo EXCEPT ![t] = @ \ {s}]
   /\ chan' = [chan EXCEPT ![t] = IF lastWm[s] > 0 THEN Offer(t, WmMsg(s, lastWm[s])) ELSE @]
   /\ UNCHANGED <<route, srcVars, rcvVars, up, nextPid, ring, prevAck, spc, fwd, fallback, discardN, tackWire,
                  inflight, tgtVars, histVars>>
 
-\* the stream of source shard s breaks: R[s] is gone with everything it held
+\* the streams of source shard s break (boundary): no more batches, acknowledgements can no longer be sent
 BreakSrc(s) ==
-  /\ SrcFaults /\ srcUp[s] /\ faults < MaxFaults
+  /\ SrcFaults /\ srcUp[s] = "up" /\ faults < MaxFaults
   /\ faults' = faults + 1
-  /\ srcUp' = [srcUp EXCEPT ![s] = FALSE]
+  /\ srcUp' = [srcUp EXCEPT ![s] = "closing"]
+  /\ UNCHANGED <<route, srcNext, wmCount, srcAck, rcvVars, sndVars, tgtVars, pidMap, conf, delivered, received,
+                 lastAck, lost, viol>>
+\* R[s] is torn down with everything it held (a hand-off loop in progress is abandoned)
+SrcStop(s) ==
+  /\ srcUp[s] = "closing"
+  /\ srcUp' = [srcUp EXCEPT ![s] = "down"]
   /\ rpc' = [rpc EXCEPT ![s] = "idle"] /\ pending' = [pending EXCEPT ![s] = [t \in Tgt |-> <<>>]]
   /\ lastHigh' = [lastHigh EXCEPT ![s] = 0] /\ lastWm' = [lastWm EXCEPT ![s] = 0]
   /\ ackByTarget' = [ackByTarget EXCEPT ![s] = [t \in Tgt |-> Absent]]
   /\ lastSentMin' = [lastSentMin EXCEPT ![s] = 0] /\ ackChan' = [ackChan EXCEPT ![s] = <<>>]
   /\ replayTo' = [t \in Tgt |-> replayTo[t] \ {s}] /\ lastAck' = [lastAck EXCEPT ![s] = 0]
+  \* known finding C04-b: the next receiver incarnation starts with an empty ack map, so every task of s that is
+  \* still outstanding anywhere (queued, in flight, unacknowledged) loses the protection of its target's level
+  /\ lost' = lost \cup {<<s, id>> : id \in {x \in received[s] : ~Confirmed(s, x)}}
   /\ UNCHANGED <<route, srcNext, wmCount, srcAck, up, chan, nextPid, ring, prevAck, spc, fwd, fallback, discardN,
-                 tackWire, inflight, tgtVars, pidMap, conf, delivered, received, viol>>
+                 tackWire, inflight, tgtVars, pidMap, conf, delivered, received, faults, viol>>
 \* a new incarnation; the source resumes from the level it was last acknowledged
 ReopenSrc(s) ==
-  /\ ~srcUp[s]
-  /\ srcUp' = [srcUp EXCEPT ![s] = TRUE]
+  /\ srcUp[s] = "down"
+  /\ srcUp' = [srcUp EXCEPT ![s] = "up"]
   /\ srcNext' = [srcNext EXCEPT ![s] = IF srcAck[s] = 0 THEN 1 ELSE srcAck[s]]
   /\ UNCHANGED <<route, wmCount, srcAck, rcvVars, sndVars, tgtVars, histVars>>
 
 Internal ==
   \/ \E s \in Src, t \in Tgt : Deliver(s, t) \/ ForwardAck(t, s) \/ ReplayWm(t, s)
-  \/ \E t \in Tgt : SenderDequeue(t) \/ SenderRecvAck(t) \/ FinishAck(t)
-  \/ \E s \in Src : Aggregate(s)
+  \/ \E t \in Tgt : SenderDequeue(t) \/ SenderRecvAck(t) \/ FinishAck(t) \/ SenderStop(t)
+  \/ \E s \in Src : Aggregate(s) \/ SrcStop(s)
 Env ==
   \/ \E s \in Src : (\E k \in 1..MaxBatch : RecvTasks(s, k)) \/ RecvWm(s)
   \/ \E t \in Tgt : SenderSend(t) \/ TgtAck(t) \/ (\E i \in 1..MaxId : TgtDone(t, i))
@@ -312,7 +344,9 @@ Spec == Init /\ [][Next]_vars
 
 (* ---------------- properties ---------------------------------------------- *)
 \* C01 / C04: no acknowledgement below which a received task is unconfirmed
-NoEarlyAck == "early" \notin viol
+NoEarlyAck == "early" \notin viol /\ "earlylost" \notin viol
+\* C04 with the known finding factored out: an early ack arises ONLY for tasks that died with a stream incarnation
+NoUnexplainedEarlyAck == "early" \notin viol
 \* C02: every target stream is acceptable to a Temporal receiver (no panic, no silently dropped task)
 WellFormed == "malformed" \notin viol /\ "dropped" \notin viol
 \* C02: without faults no task is accepted twice, and tasks of one source reach a target in source order
@@ -320,7 +354,7 @@ NoDup == "dup" \notin viol
 SourceOrder == "disorder" \notin viol
 \* C02 exactly-once, completeness half: at quiescence every received task has been accepted by its owner
 Quiet == /\ \A s \in Src : rpc[s] = "idle"
-         /\ \A t \in Tgt : up[t] /\ chan[t] = <<>> /\ inflight[t] = NoFlight
+         /\ \A t \in Tgt : Live(t) /\ chan[t] = <<>> /\ inflight[t] = NoFlight
 AllDelivered == (Quiet /\ faults = 0) =>
                   \A s \in Src : \A id \in received[s] : [s |-> s, id |-> id, t |-> route[s][id]] \in delivered
 \* C03 safety: acknowledgements to a source never decrease (per incarnation) and never exceed its last high watermark
